@@ -1173,11 +1173,11 @@ func (m *Manager) UnconfirmedParents(txn types.Transaction) []types.Transaction 
 			break
 		}
 	}
-	// reverse so that parents always come before children
-	for i := 0; i < len(parents)/2; i++ {
-		j := len(parents) - 1 - i
-		parents[i], parents[j] = parents[j], parents[i]
-	}
+	// order the parents as they are ordered in the pool, so that parents
+	// always come before children
+	sort.Slice(parents, func(i, j int) bool {
+		return m.txpool.indices[parents[i].ID()] < m.txpool.indices[parents[j].ID()]
+	})
 	return parents
 }
 
@@ -1226,11 +1226,11 @@ func (m *Manager) V2TransactionSet(basis types.ChainIndex, txn types.V2Transacti
 			break
 		}
 	}
-	// reverse so that parents always come before children
-	for i := range len(parents) / 2 {
-		j := len(parents) - 1 - i
-		parents[i], parents[j] = parents[j], parents[i]
-	}
+	// order the parents as they are ordered in the pool, so that parents
+	// always come before children
+	sort.Slice(parents, func(i, j int) bool {
+		return m.txpool.indices[parents[i].ID()] < m.txpool.indices[parents[j].ID()]
+	})
 
 	// update the transaction's basis to match tip
 	txns, err := m.updateV2TransactionProofs(append(parents, txn), basis, m.tipState.Index)
